@@ -5,8 +5,9 @@
   Rows are identified by their position; a window is a pair of optional bounds in whole
   seconds.  Each front end computes the boolean `subset_indexes` its own way:
     * NumpyStream / NetcdfStream:  `ones & (t >= starting) & (t < ending)`
-    * PandasStream: two successive boolean `.loc` filters, then membership of the surviving
-      row labels in the frame's index
+    * PandasStream: a positional boolean mask, `&=` with each comparison the window defines, then
+      `.loc[mask]` (after the repair of F-22; before it: two successive `.loc` filters, then
+      membership of the surviving row LABELS in the frame's index — `pandasMaskOld`)
     * XarrayStream: a boolean mask on the time coordinate turned into integer positions
   The mechanisms are modelled separately and proved equal to the specification `specMask`.
 -/
@@ -36,9 +37,13 @@ def numpyMask (w : Window) (ts : List Int) : List Bool :=
   | some b => List.zipWith (fun m t => m && decide (t < b)) m1 ts
   | none => m1
 
-/-- PandasStream: rows carry labels; filter rows twice, then mark the rows whose label
-    survived (`index.isin(subset.index)`). -/
-def pandasMask (w : Window) (rows : List (Nat × Int)) : List Bool :=
+/-- PandasStream (rows carry labels, which play no part): `in_window = ones; in_window &= (t >= starting);
+    in_window &= (t < ending)` on the time column, by position. -/
+def pandasMask (w : Window) (rows : List (Nat × Int)) : List Bool := numpyMask w (rows.map (·.2))
+
+/-- PandasStream BEFORE the repair of F-22: filter rows twice, then mark the rows whose LABEL
+    survived (`index.isin(subset.index)`) — wrong as soon as two rows share a label. -/
+def pandasMaskOld (w : Window) (rows : List (Nat × Int)) : List Bool :=
   let s1 := match w.starting with
     | some a => rows.filter fun (r : Nat × Int) => decide (a ≤ r.2)
     | none => rows
